@@ -16,7 +16,7 @@ be a behaviour of IterProto).
     observations become one RobustTrace event file that TLC validates.
 Level: exploration (the byte space is sampled; the protocol spec is model-checked).
 """
-import json, os, os, random, threading, time
+import json, os, random, threading, time
 from concurrent.futures import ThreadPoolExecutor
 from vlib import read_ndjson, write_ndjson, canon, ToolError, SPEC, VERIF, log
 
@@ -559,12 +559,13 @@ def run(ctx):
     try:
         import c07
         from vlib import SPEC as _SPEC
-        alpha = c07.ARITH + c07.STACK[:3] + c07.CONST
+        alpha = (c07.ARITH + c07.STACK[:3] + c07.CONST) if not ctx.quick else \
+            (["div", "mod", "mul", "plus", "minus", "neg", "abs", "not", "shl", "shr", "shra", "dup", "swap"] + c07.CONST)
         cfgname = "MCExpr_c01_run"
         with open(os.path.join(_SPEC, cfgname + ".cfg"), "w") as f:
             f.write("INIT Init\nNEXT Next\nINVARIANT MachineInv\nINVARIANT Emit\nCONSTRAINT Horizon\nCHECK_DEADLOCK FALSE\nCONSTANTS\n")
             f.write("  Alpha = %s\n  MaxLen = %d\n  MaxIters = {999}\n  Stores = {\"heap\"}\n  Inits = {\"none\"}\n" %
-                    (c07.tlaset(alpha), 2 if ctx.quick else 3))
+                    (c07.tlaset(alpha), 3))
         rx = ctx.tlc("MCExpr", cfgname, timeout=1200)
         for prof in ("dev", "release"):
             bx = ctx.build("gvh-expr", prof)
